@@ -13,7 +13,7 @@ SPEC = dict(
           "route (!SnKy + !SnFl), settled changes of !G2N / !N2G, SETDATA/REMOVEDATA mutations with a fresh observer read. After every burst each "
           "session's receive queue is compared with the expected recipient sets computed from the OBSERVER's tree with the independent wildcard "
           "reference (refwild.h) and a hand-written filter evaluator: exactly once to every selected session, to nobody else, per-sender order kept, "
-          "content unchanged, a `session` field sent with ANY type / value count (string, several strings, int32, int64 x2, bool x2, Message, raw) arrives as exactly one string value naming the true sender. Then 70 in-process comparisons per tree of NodePathMatcher::DoTraversal (collecting "
+          "content unchanged, a `session` field sent with ANY type / value count (string, several strings, int32, int64 x2, bool x2, Message, raw) arrives as exactly one string value naming the true sender. Between bursts: GETDATA with a random pattern set, and one SUBSCRIBE:<pattern> (initial values + the notice for an update of a foreign node), both against the reference. Then 70 in-process comparisons per tree of NodePathMatcher::DoTraversal (collecting "
           "callback; from the root with the implicit prefix, or rooted at a host/session node) with MatchesPath and MatchesNode over every node and "
           "with the reference. A case is non-trivial when at least 5 of its pattern-routed Messages had both a selected and an unselected session; "
           "distinct = distinct (seed, case). regress: F8, F16, F16b, F17 (both witnesses of the row) and the documentation examples as fixed cases."),
@@ -22,6 +22,9 @@ SPEC = dict(
                  'filter reference: Int32 compare, ValueExists, WhatCode range, NodeName, String equality, And/Or, semantics from the QueryFilter.h comments',
                  'the !G2N / !N2G flags are switched off by setting and then removing the parameter (a bare REMOVEPARAMETERS of a never-set default flag is a no-op in the server: counted, not judged)',
                  'a pattern with a clause that fails to compile selects nothing and every other pattern of the same list (Message keys, default route, GETDATA, REMOVEDATA) selects what it selects alone; candidates that muscle compiles after all are left out and counted',
+                 'the default route is the !SnKy strings last set paired by position with the !SnFl Messages last set, whichever SETPARAMETERS / REMOVEPARAMETERS brought them (keys only, filters only, both); filters without keys = no route',
+                 'node names may hold backslashes (a\\ a\\zz b\\c); an escaped backslash is a literal backslash also when a live metacharacter follows it',
+                 'KNOWN on the tree of 7e88fae: a directly looked-up comma list unescapes its alternatives twice (classified apart: keys list_alternative_with_escaped_backslash|... and regress|list_alternative_with_escaped_backslash)',
                  'fewer filters than keys: the last filter is applied to the surplus keys by the code, REMOVEDATA\'s text says no filter: receivers on which the two readings differ are excluded and counted',
                  'a node visited twice by one traversal is reported (DoTraversal documents "the number of times cb was called" for nodes "encountered")',
                  'g++ 12 ASan/UBSan/LSan and valgrind memcheck report what they claim to report'],
@@ -30,7 +33,7 @@ SPEC = dict(
         Leg('route', 'h_route', 'asan', opts={'mode': 'route', 'msgs': '40', 'trav': '70'}, quick=1600, thorough=40000, workers=16, leaks=True),
         Leg('memcheck', 'h_route', 'plain', opts={'mode': 'route', 'msgs': '40', 'trav': '70'}, quick=16, thorough=320, workers=16, valgrind=True),
     ],
-    min_stats={'regress': {'regress_routed_messages': 25, 'regress_traversals': 1, 'regress_forgeries_checked': 2, 'regress_malformed_scenarios': 10},
+    min_stats={'regress': {'regress_routed_messages': 25, 'regress_traversals': 1, 'regress_forgeries_checked': 2, 'regress_malformed_scenarios': 10, 'regress_escaped_backslash_scenarios': 8, 'regress_route_filter_scenarios': 6, 'regress_list_backslash_scenarios': 4},
                'route': {'routed_messages': 50000, 'receiver_checks': 300000, 'deliveries_expected': 80000, 'bursts': 8000,
                          'msgs_with_2_patterns': 9000, 'msgs_with_3_patterns': 6000, 'msgs_with_4_patterns': 3500, 'msgs_with_5plus_patterns': 1500,
                          'multi_msgs_with_equal_depth_patterns': 14000, 'multi_msgs_two_depths': 10000, 'multi_msgs_three_plus_depths': 3000,
@@ -43,6 +46,10 @@ SPEC = dict(
                          'default_routes_with_malformed_pattern': 300, 'default_routes_with_malformed_pattern_before_valid': 200,
                          'default_route_deliveries_expected_behind_malformed': 150, 'tree_reads_with_malformed_key_before_valid': 400,
                          'traversals_with_malformed_pattern': 6000,
+                         'clauses_with_escaped_backslash_before_live_metachar': 10000, 'clauses_with_escaped_backslash_before_sole_live_metachar': 7000,
+                         'default_route_filter_replaced_without_keys': 200, 'default_route_messages_after_filter_replaced_without_keys': 200,
+                         'default_route_deliveries_expected_after_filter_replaced_without_keys': 60, 'default_route_filters_set_without_any_keys': 100,
+                         'default_route_keys_replaced_keeping_filters': 100, 'getdata_checks': 600, 'subscription_probes': 500, 'subscription_updates_expected': 120,
                          'traversal_comparisons': 100000, 'traversal_nodes_visited': 150000, 'traversals_direct_lookup_at_every_level': 8000,
                          'traversals_iterated_at_every_level': 20000, 'traversals_mixing_lookup_and_iteration': 30000,
                          'traversals_with_lookup_level_and_visits': 20000, 'traversals_with_filters': 12000, 'traversals_with_several_patterns': 40000,
